@@ -703,8 +703,16 @@ class UnionProxy:
         return getattr(self.__target__, attr)
 
     def __setattr__(self, attr: str, value: Any) -> None:
-        setattr(self.__target__, attr, value)
-        self.__union__._rebuild(self.__attr__)
+        target = self.__target__
+        previous = target.__dict__.get(attr)
+        setattr(target, attr, value)
+        try:
+            self.__union__._rebuild(self.__attr__)
+        except Exception:
+            # The value can't be written: keep the field that matches the (unchanged) buffer
+            if attr in target.__dict__:
+                target.__dict__[attr] = previous
+            raise
 
 
 def attrsetter(path: str) -> Callable[[Any], Any]:
